@@ -17,6 +17,7 @@ CHECKS = {
     "C05": (checks_problem.run, "model_checking"),
     "C01": (checks_domain.run_c01, "model_checking"),
     "C20": (checks_core.run_c20, "model_checking"),
+    "C18": (checks_core.run_c18, "model_checking"),
     "C04": (checks_hist.run_c04, "model_checking"),
     "C08": (checks_domain.run_c08, "translation_validation"),
     "C09": (checks_domain.run_c09, "model_checking"),
@@ -136,6 +137,13 @@ META["C20"] = {
     "text": "For every (action, call) pair the reported grounded precondition literals (untyped and typed), add/delete sets per "
             "effect group, grounded numeric expressions and the typed call are judged by TLC against position-wise "
             "substitution of the call's arguments into the AST the spec read from the same text."}
+META["C18"] = {
+    "engine": "M+V", "design_ref": "DESIGN.md section 6 (C18)", "note": CORE_NOTE,
+    "technique": "TLC model checking that simultaneous substitution preserves shape and behaviour (sequential in-place renaming "
+                 "refuted) + trace validation of Action.change_signature on a second parse against Rename!RenameAction",
+    "text": "MC_Rename checks over the bounded family and six maps that the renamed action has the same parameters up to "
+            "renaming and the same Holds/Succ for every state and call; random actions are renamed in the library and the "
+            "renamed copy's answers are judged against the spec's renamed AST."}
 NOT_YET = {}
 
 
